@@ -122,7 +122,8 @@ pub fn run_case(c: &Case, out: &mut String, st: &mut Stats, snapshots: bool) -> 
         jstr(&c.json())
     ));
     st.events += 1;
-    let fk: &'static str = crate::source::kind_name(crate::source::kind_of(&c.fault_kind));
+    // "seek_interrupted": an Interrupted error raised by a seek of the source (reads that are interrupted are retried; seeks are not)
+    let fk: &'static str = if c.fault_kind == "seek_interrupted" { "seek_interrupted" } else { crate::source::kind_name(crate::source::kind_of(&c.fault_kind)) };
     let src = ScriptSrc::new(c.x.clone(), c.chunks.clone(), c.intr_every, c.fault_at, fk);
     let glog: GrowLog = Rc::new(RefCell::new(vec![]));
     let mut reader: Option<Rdr> = Some(m::Reader::with_capacity(src.clone(), c.cap).set_policy(ScriptPolicy::new(c.pol.clone(), glog.clone())));
